@@ -10,6 +10,7 @@
 #            calls of the pre-existing handler, sigaction compared field by field, isEnabled) is validated by TLC
 #            against spec/Signals/Trace_Signals.tla.
 import concurrent.futures as cf
+import glob
 import json
 import os
 import random
@@ -215,6 +216,8 @@ def models(ctx):
             continue
         ctx.tlc_mc("Signals", "MC_Signals.tla", "MC_bug_%s.cfg" % bug, expect=inv, coverage=False, workers=2,
                    label="as-found/seeded defect '%s'" % bug)
+    for f in glob.glob(os.path.join(vlib.SPEC, "Signals", "MC_Signals_TTrace_*")):          # TLC drops the counterexamples of
+        os.remove(f)                                                                           # the expected violations here
     if not ctx.quick():
         ctx.tlc_mc("Signals", "MC_Signals.tla", "MC_thorough.cfg", coverage=False, timeout=1500)
         ctx.tlc_mc("Signals", "MC_Signals.tla", "MC_wide.cfg", coverage=False, timeout=1500)
